@@ -32,6 +32,17 @@ CHECKS = {
          "6 C03", "Stated for field codecs that leave the string table alone (fields_neutral; DESIGN 9.4) - the instantiation "
          "at enc/dec for neutral field types is a separate corollary; evolution on enum variants goes through the same "
          "record lemma but the variant-level corollary is not stated. " + TB),
+ "C04": ("The reference format of DESIGN section 4 is Codec.enc (concatenative, over byte lists); 21 layout theorems pin "
+         "its constants construct by construct for all values (big-endian, zig-zag string length, unsigned byte-array length, "
+         "Option/Result tags, count-prefixed sequences, version byte, header/chunk order, position byte sign, enum index). "
+         "Converse: round trip of the known form (roundtrip) AND of the encoder that writes every sequence and map in the "
+         "unknown-length form at every nesting level (AltProofs.roundtrip_U), mixed choices by C12_forms_agree. Tie: "
+         "implementation bytes = reference bytes for every value of the C01/C02 streams (dynamic route) and every catalogue "
+         "type (static route, real macro), the pinned Point vector, and the implementation decoding reference-built "
+         "unknown-form encodings.",
+         "6 C04", "There is a single encoder model, so 'B.serialize = A.encode' is by construction and the tie to the code is "
+         "the correspondence run. The Scala golden file is not decoded by the model (custom StackTraceElement codec). Chrono/"
+         "BigDecimal layouts not modelled. " + TB),
  "C05": ("Theorems: the top-level decoder over the DeserializationContext model (usize arithmetic with explicit Panic, "
          "region stack, index/slice/unwrap) never panics for any bytes and any well-formed type (TotalProofs + SimProofs: "
          "layer B simulates layer A); the three sources answer every count in N like the reference source. Progress / "
@@ -97,6 +108,20 @@ CHECKS = {
          "constructors, dangling steps, 254 steps; release and debug.",
          "6 C17", "Exact error class per input (C17_errors) is checked by correspondence, not proved. DateTime<FixedOffset> "
          "(F16) is outside the modelled vocabulary. " + TB),
+ "C18": ("PARTIAL. Theorems about a model of the only process-wide state (one lazily initialised metadata cell per derived "
+         "type, first-use initialisation as atomic touches, bodies that read declarations THROUGH the cells and start from an "
+         "empty string table): for every interleaving of every finite set of threads the cells only hold what their "
+         "declaration says, every cell is initialised before a body reads it, and every result equals the same call alone in "
+         "a fresh process; per-thread program order. Sampled, not proved: std::sync::Once, memory ordering, hashbrown reads "
+         "(16 threads x barrier x fresh processes making first use of all catalogue types; call histories in one process).",
+         "6 C18", "Real schedules are sampled. " + TB),
+ "C19": ("PARTIAL. Theorems: arrays are built from exactly N decoded elements; any decoded value is determined by the consumed "
+         "prefix of the input alone; the object table yields only live objects unless an object is dropped while registered "
+         "(Mem.v) - and C19_refs_refuted: a client performing only operations safe Rust allows is handed a dead object (known "
+         "finding F15). Tie: compiler verdicts on a catalogue of #![forbid(unsafe_code)] witness programs (4 must be rejected, "
+         "control accepted, the F15 witness is accepted = the finding), unsafe decoding paths on every count/length mismatch "
+         "vs the model; thorough: Miri.",
+         "6 C19", "The borrow checker's verdict is observed; transmute::<Vec<u8>,Vec<T>> layout trusted. " + TB),
  "C11": ("Theorems over all of N/Z (no enumeration) about the transcription of write_var_u32/i32, read_var_u32/i32 and "
          "the three sources: round trip through any refining source, the three sources refine, bytes = LEB128, minimal "
          "length, continuation bits, zig-zag closed form and bijection, sink agreement. Tie: boundary/random/all-small "
